@@ -1727,7 +1727,12 @@ class _TotalJacInfo(object):
                             # reset any Problem level data for the current iteration
                             self.model._problem_meta['parallel_deriv_color'] = None
                             self.model._problem_meta['seed_vars'] = None
-                
+
+                # the subtractions of a substitution-method coloring combine the raw entries, so
+                # they must be applied before any unit or driver scaling.
+                if self.simul_coloring is not None and self.simul_coloring._subtractions:
+                    self.simul_coloring._apply_subtractions(self.J)
+
                 self._apply_unit_scaling(self.J_dict)
 
                 # Driver scaling.
@@ -1748,9 +1753,6 @@ class _TotalJacInfo(object):
                     self._print_derivatives()
         finally:
             self.model._recording_iter.pop()
-
-        if self.simul_coloring is not None and self.simul_coloring._subtractions:
-            self.simul_coloring._apply_subtractions(self.J)
 
         return self.J_final
 
